@@ -70,6 +70,13 @@ Theorem C12_src_twisted_on_publish_is_model : forall ident secret k body i c d s
   on_frame ident secret k 3 body s = (TwProtocol_on_publish i c d s, false).
 Proof. exact tw_on_publish_src_eq. Qed.
 
+(* the blocking thread session, its application-facing methods translated from hpfeeds/blocking/session.py on every run (pytrans7.py; BlkGenEq.v) *)
+From HP Require Import BlkSession BlkFacts BlkGen BlkGenEq.
+Theorem C12_src_blocking_session : forall ident secret es, Qb (brun_src ident secret es).
+Proof. exact src_brun_Qb. Qed.
+Theorem C12_src_blocking_session_on_publish_is_model : forall i ch d c s, apply_ev (ClientProto.HPublish i ch d) (c, s) = (c, BlkProtocol_on_publish i ch d s).
+Proof. exact blk_on_publish_src_eq. Qed.
+
 Print Assumptions C12_asyncio.
 Print Assumptions C12_blocking_session.
 Print Assumptions C12_asyncio_stream.
@@ -81,3 +88,5 @@ Print Assumptions C12_src_asyncio_publish_is_model.
 Print Assumptions C12_src_asyncio.
 Print Assumptions C12_src_twisted.
 Print Assumptions C12_src_twisted_on_publish_is_model.
+Print Assumptions C12_src_blocking_session.
+Print Assumptions C12_src_blocking_session_on_publish_is_model.
